@@ -3,6 +3,7 @@ package an
 import (
 	"fmt"
 	"go/token"
+	"go/types"
 	"sort"
 
 	"golang.org/x/tools/go/ssa"
@@ -83,10 +84,11 @@ func (e *Eval) evalLoop(fr *frame, h *ssa.BasicBlock, body map[*ssa.BasicBlock]b
 	}
 
 	// ---- passes: find the set of pre-existing objects the body mutates
+	// (start from "nothing is modified" and grow the set until a pass modifies nothing else:
+	// the least fixed point.  Starting from "everything is modified" can confirm itself — a
+	// pointer loaded from a cell assumed modified is unknown, a store through it then really
+	// clobbers everything.)
 	symSet := map[*Obj]bool{}
-	for o := range entry {
-		symSet[o] = true
-	}
 	evMark, callMark, exitMark, noteMark, loopMark := len(e.Events), len(e.Calls), len(e.Exits), len(e.Notes), len(e.Loops)
 	var backSt State
 	var haveBack bool
@@ -183,13 +185,14 @@ func (e *Eval) evalLoop(fr *frame, h *ssa.BasicBlock, body map[*ssa.BasicBlock]b
 				next[o] = true
 			}
 		}
-		stable := len(next) == len(symSet)
-		if stable {
-			for o := range next {
-				if !symSet[o] {
-					stable = false
-				}
+		stable := true
+		for o := range next {
+			if !symSet[o] {
+				stable = false
 			}
+		}
+		for o := range symSet {
+			next[o] = true // the set only grows
 		}
 		if stable || passes >= 5 {
 			if !stable {
@@ -653,12 +656,18 @@ func (e *Eval) tripCount(fr *frame, h *ssa.BasicBlock, body map[*ssa.BasicBlock]
 	}
 	x, okx := e.val(fr, b.X).(IntV)
 	y, oky := e.val(fr, b.Y).(IntV)
-	if !okx || !oky || x.Kind != ikLin || y.Kind != ikLin {
-		return -1, cont, exit, false
-	}
 	op := b.Op
 	if neg != !contWhen { // continue while cond == contWhen (after removing negations)
 		op = negOp(op)
+	}
+	if !okx || !oky || x.Kind != ikLin || y.Kind != ikLin {
+		// a counter against a bound that is not a constant but does not change while the loop
+		// runs: the number of iterations is unknown, but it is finite
+		if e.countsToInvariant(b.X, b.Y, op, body, fr) || e.countsToInvariant(b.Y, b.X, flipOp(op), body, fr) {
+			e.event("P5", Discharged, ifi, "loop in %s: a counter stepping by one towards a bound that is fixed while the loop runs", fr.fn.Name())
+			return -1, cont, exit, true
+		}
+		return -1, cont, exit, false
 	}
 	d := x.L.Sub(y.L) // continue while d(t) op 0
 	var D0, D1 int64
@@ -697,6 +706,50 @@ func (e *Eval) tripCount(fr *frame, h *ssa.BasicBlock, body map[*ssa.BasicBlock]
 	}
 	e.event("P5", Discharged, ifi, "loop in %s: %d iterations", fr.fn.Name(), T)
 	return T, cont, exit, true
+}
+
+// countsToInvariant: `iv op bound` is the continue condition, iv moves by exactly one per
+// iteration towards bound, and bound cannot change during the loop.
+func (e *Eval) countsToInvariant(iv, bound ssa.Value, op token.Token, body map[*ssa.BasicBlock]bool, fr *frame) bool {
+	x, ok := e.val(fr, iv).(IntV)
+	if !ok || x.Kind != ikLin || x.L.Const() {
+		return false
+	}
+	if !loopInvariant(bound, body) {
+		return false
+	}
+	switch {
+	case op == token.LSS && x.L.B == 1: // i < n ⇒ i+1 <= n: no overflow
+		return true
+	case op == token.GTR && x.L.B == -1:
+		return true
+	}
+	return false
+}
+
+// loopInvariant: the SSA value has one value for the whole run of the loop — it is defined
+// outside the body, or it is len/cap of such a slice, string or array (whose length cannot change).
+func loopInvariant(v ssa.Value, body map[*ssa.BasicBlock]bool) bool {
+	switch x := v.(type) {
+	case *ssa.Const, *ssa.Parameter, *ssa.FreeVar:
+		return true
+	case *ssa.Call:
+		if bi, ok := x.Call.Value.(*ssa.Builtin); ok && (bi.Name() == "len" || bi.Name() == "cap") && len(x.Call.Args) == 1 {
+			switch x.Call.Args[0].Type().Underlying().(type) {
+			case *types.Slice, *types.Array:
+				return loopInvariant(x.Call.Args[0], body)
+			case *types.Basic: // string
+				return loopInvariant(x.Call.Args[0], body)
+			case *types.Pointer: // pointer to array
+				return loopInvariant(x.Call.Args[0], body)
+			}
+			return false
+		}
+	}
+	if in, ok := v.(ssa.Instruction); ok && in.Block() != nil {
+		return !body[in.Block()]
+	}
+	return false
 }
 
 // resolveAt substitutes the closed forms of loop-carried symbols at the head of iteration t.
